@@ -263,6 +263,29 @@ func init() {
 			}
 			c := &Case{Server: ServerCfg{Limit: smallLimit(r)}}
 			genHistory(r, c, histOpts{extended: true, closes: true, params: true, binary: true, unknownNames: true, errs: r.Chance(1, 4), maxUnits: units(tier, 10)})
+			if r.Chance(1, 4) {
+				// a second connection, served afterwards on the same server, refers to
+				// the names the first one defined without defining them itself: they
+				// must be unknown to it
+				var ms []pgwire.FMsg
+				for _, n := range []string{"", "s1", "s2"} {
+					switch r.Intn(3) {
+					case 0:
+						ms = append(ms, pgwire.FMsg{K: "D", Sub: 'S', S1: n}, pgwire.FMsg{K: "S"})
+					case 1:
+						ms = append(ms, pgwire.FMsg{K: "B", S1: "", S2: n}, pgwire.FMsg{K: "S"})
+					}
+				}
+				for _, n := range []string{"", "p1", "p2"} {
+					switch r.Intn(3) {
+					case 0:
+						ms = append(ms, pgwire.FMsg{K: "E", S1: n}, pgwire.FMsg{K: "S"})
+					case 1:
+						ms = append(ms, pgwire.FMsg{K: "D", Sub: 'P', S1: n}, pgwire.FMsg{K: "S"})
+					}
+				}
+				c.Conns = append(c.Conns, ConnCase{Steps: []Step{{Msgs: []pgwire.FMsg{startupMsg("second", "db")}}, {Msgs: ms}}})
+			}
 			return c
 		},
 		Check: func(x *Exec, c *Case) ([]Violation, bool) {
